@@ -40,11 +40,11 @@ structure EncContract {σ : Type} (C : Codec σ) (Dec : Bytes → Option Bytes) 
     (C.step s inp room fl).res ≠ Res.streamEnd →
     R (C.step s inp room fl).st (x ++ inp.take (C.step s inp room fl).consumed) (y ++ (C.step s inp room fl).out)
       (fin || (decide (fl = Flush.full) && decide ((C.step s inp room fl).consumed = inp.length)))
-  /-- `END` is only answered to `FLUSH_FULL`, after all input has been taken; what has been handed out for the
+  /-- `END` is never answered to `FLUSH_NONE`, and only after all input has been taken; what has been handed out for the
       member then decodes to what has been taken in; the codec is ready for the next member -/
   finish : ∀ {s x y fin} (inp : Bytes) (room : Nat) (fl : Flush), R s x y fin → Proto fin fl inp →
     (C.step s inp room fl).res = Res.streamEnd →
-    fl = Flush.full ∧ (C.step s inp room fl).consumed = inp.length ∧ R (C.step s inp room fl).st [] [] false ∧
+    fl ≠ Flush.none ∧ (C.step s inp room fl).consumed = inp.length ∧ R (C.step s inp room fl).st [] [] false ∧
     (x ++ inp ≠ [] → Dec (y ++ (C.step s inp room fl).out) = some (x ++ inp))
   /-- progress: a call with room and either input or a pending flush of an open member takes something in, or
       comes closer to having handed out everything -/
